@@ -59,7 +59,7 @@ func padTokens(n int) []tok.Tok {
 	return out
 }
 
-var corrKinds = []string{"relabel-as-other-entry", "relabel-as-other-entry", "duplicate-section", "flip-in-token", "wrong-key", "truncate-entry", "mislabel", "zero-section", "oversize-section", "other-codec-cid", "flip-anywhere", "drop-last-byte"}
+var corrKinds = []string{"relabel-as-other-entry", "relabel-as-other-entry", "duplicate-section", "flip-in-token", "wrong-key", "truncate-entry", "mislabel", "zero-section", "oversize-section", "other-codec-cid", "flip-anywhere", "drop-last-byte", "truncate-at", "append-byte"}
 
 func write(w container.Writer, format string, stream bool) ([]byte, error) {
 	if !stream {
@@ -294,6 +294,14 @@ func run(c *h.Ctx, cs Case) {
 			if len(out) > 0 {
 				out = out[:len(out)-1]
 			}
+		case "truncate-at":
+			// the container ends early, at any offset (in the base64 forms: of the text)
+			if len(out) > 0 {
+				out = out[:corr.Off%len(out)]
+			}
+		case "append-byte":
+			// one stray byte after the container (a newline from a text transport, a NUL, the start of another frame)
+			out = append(append([]byte{}, out...), byte(corr.Off))
 		case "zero-section", "oversize-section":
 			if isCar {
 				raw := out
@@ -469,13 +477,26 @@ func TestVariantMatrix(t *testing.T) {
 				for _, rs := range []bool{false, true} {
 					prop.One(t, Case{Toks: set, Order: []int{1, 0, 2}, Format: f, WStream: ws, RStream: rs})
 					for _, ck := range corrKinds[1:] {
-						if ck == "flip-anywhere" {
+						if ck == "flip-anywhere" || ck == "truncate-at" || ck == "append-byte" {
 							continue
 						}
 						for e := 0; e < len(set); e++ {
 							prop.One(t, Case{Toks: set, Order: []int{0}, Format: f, WStream: ws, RStream: rs, Corr: &Corr{Kind: ck, Entry: e, Off: 3}})
 						}
 					}
+				}
+			}
+		}
+	}
+	// the container of the 3-token and of the 1-token set cut at EVERY offset, and followed by every byte value
+	for _, set := range fixedSets()[1:] {
+		for _, f := range ctr.Formats {
+			for _, rs := range []bool{false, true} {
+				for off := 0; off < 1500; off++ {
+					prop.One(t, Case{Toks: set, Order: []int{0}, Format: f, RStream: rs, Corr: &Corr{Kind: "truncate-at", Off: off}})
+				}
+				for b := 0; b < 256; b++ {
+					prop.One(t, Case{Toks: set, Order: []int{0}, Format: f, RStream: rs, Corr: &Corr{Kind: "append-byte", Off: b}})
 				}
 			}
 		}
